@@ -248,6 +248,7 @@ theorem localEvaluate_total (cfg : LocalCfg) (s : Local) (score : F) :
         | mutant _ => exact Or.inr ⟨trivial, hle, by intro a b c; simp⟩
         | parents _ => exact Or.inr ⟨trivial, hle, by intro a b c; simp⟩
         | inits _ => exact Or.inr ⟨trivial, hle, by intro a b c; simp⟩
+        | vec _ => exact Or.inr ⟨trivial, hle, by intro a b c; simp⟩
     · rw [if_neg hle]
       exact Or.inl ⟨_, rfl⟩
 
